@@ -484,7 +484,7 @@ def run(chk):
         "submitting thread; K2 no environment query in the packers' closures except the documented ones, and the CPU "
         "count reaches only the worker count; comparators never order by address; both pool implementations fill all "
         "slots; plus the pool discipline (C09 rules) and the in-flight copy / fragment cache rules (C08) that the "
-        "'independent of schedule and backlog' claim rests on. Byte equality with the serial build is not decided. K3 also demands stateless workers (stores only into the work item and codec-library structs); readdir is accepted iff C11's A3 rules hold for that call site K2-backlog: no hand-over of a block to the pool is control-dependent on the backlog counters.")
+        "'independent of schedule and backlog' claim rests on. Byte equality with the serial build is not decided. K3 also demands stateless workers (stores only into the work item and codec-library structs); readdir is accepted iff C11's A3 rules hold for that call site. K2-backlog: no hand-over of a block to the pool is control-dependent on the backlog counters.")
     chk.assumptions = ["done-list ordering of the pool is decided (as far as it is structural) by the C09 check"]
     prog = load_program("gensquashfs")
     reach = rule_a_confinement(chk, prog)
